@@ -13,7 +13,7 @@ from ..world import World
 from .c12 import snapshot, write_set, describe_change
 
 PURE = ("serialize", "provn", "graph", "dot", "eq", "req", "hash", "unified", "flattened",
-        "get_records", "records_list", "roundtrip", "peek")
+        "roundtrip")
 TEXT = ("serialize", "provn")
 
 
@@ -85,7 +85,8 @@ class C13(Oracle):
         if not hasattr(self, "twin"):
             self.twin = World(self.cfg)
         self.pre = snapshot(w)
-        self.ws = write_set(w, op) if (op[0] not in PURE or (op[0] == "peek" and op[2] == "attribute")) else set()
+        self.ws = set()
+        self.judged = op[0] in PURE  # mutators' side effects are C12's business
 
     def after(self, w, i, op, out):
         post = snapshot(w)
@@ -94,13 +95,11 @@ class C13(Oracle):
             self.count("pure_calls")
             if out.status == "exc":
                 self.probe("exporter_raised")
-        for oid, (kind, h, val) in self.pre.items():
-            if oid in self.ws:
-                continue
+        for oid, (kind, h, val) in (self.pre.items() if self.judged else ()):
             now = post.get(oid)
             if now is not None and now[2] != val:
                 raise Violation(
-                    "C13", "purity" if k in PURE else "non-interference", k,
+                    "C13", "purity", k,
                     {"operation": op, "outcome": out.summary(), "changed": h,
                      "what": describe_change(kind, val, now[2])},
                     {"op": k},
@@ -176,11 +175,9 @@ class C13(Oracle):
             if fmt != "rdf" and (self.counters.get("pristine_twin_checks", 0) < 6):
                 pw = World(self.cfg)
                 for hop in self._history[:-1]:
-                    if hop[0] not in PURE or hop[0] in ("unified", "flattened", "roundtrip") or (
-                            # get_attribute / value / get_asserted_types hand out the live value
-                            # set (and get_attribute may register the name's namespace): not
-                            # among the operations C13 lists, so the pristine twin runs them too
-                            hop[0] == "peek" and hop[2] in ("attribute", "value", "types")):
+                    # only the operations C13 lists are left out (read-only accessors such as
+                    # label / get_attribute are not among them, so the pristine twin runs them)
+                    if hop[0] not in PURE or hop[0] in ("unified", "flattened", "roundtrip"):
                         pw.execute(hop)
                 pout = pw.execute(op)
                 self.count("pristine_twin_checks")
